@@ -18,7 +18,7 @@ def gen_scenario(rng, sid, big=False, faults=True):
         k = rng.randint(1, n - skip)
         L.append("m fault pthread_create %d 1" % k); dead = skip + k - 1
     L += ["m start %d" % skip, "m waitrun"]
-    mid = [sid * 100 + 1]
+    mid = [(sid % 400) * 100 + 1]
     def nid():
         mid[0] += 1; return mid[0] - 1
     gates = []
